@@ -268,7 +268,7 @@ def rule_pp_contract(ctx, px):
         ctx.ob(R, t.module.rel, f"{t.short} :: return #{i + 1} keeps the terminator component", ok,
                "" if ok else f"returns {txt}", r.lineno)
         if isinstance(v, ast.Tuple) and len(v.elts) == 2:
-            e0 = v.elts[0]
+            e0 = pyfront.subst_locals(t.node, v.elts[0])    # `line = p[0]` hoisted into a local is the same expression
             pref = False
             if isinstance(e0, ast.Subscript) and ast.unparse(e0.value) == f"{p}[0]" and isinstance(e0.slice, ast.Slice) \
                     and e0.slice.lower is None and e0.slice.step is None:
@@ -296,7 +296,18 @@ def rule_pp_contract(ctx, px):
     # counter discipline
     cnt = None
     disc_ok = False
+    empties_le = (f"len({p}[0]) == 0", f"0 == len({p}[0])", f"not {p}[0]", f"{p}[0] == ''", f"'' == {p}[0]", f"not len({p}[0])")
     for st in le.node.body:
+        # `self._count = (self._count + 1) if <empty line> else 0` - the conditional-expression form of the same discipline
+        if isinstance(st, ast.Assign) and len(st.targets) == 1 and isinstance(st.value, ast.IfExp):
+            ie = st.value
+            tst, a_, b_ = pyfront.subst_locals(le.node, ie.test), ie.body, ie.orelse
+            if isinstance(tst, ast.UnaryOp) and isinstance(tst.op, ast.Not) and ast.unparse(tst) not in empties_le:
+                tst, a_, b_ = tst.operand, b_, a_
+            tg = ast.unparse(st.targets[0])
+            if ast.unparse(tst) in empties_le and ast.unparse(b_) == "0" and ast.unparse(a_).replace("(", "").replace(")", "") in (f"{tg} + 1", f"1 + {tg}"):
+                cnt = tg
+                disc_ok = True
         if isinstance(st, ast.If) and st.orelse:
             tnode, body_, orelse_ = st.test, st.body, st.orelse
             empties = (f"len({p}[0]) == 0", f"0 == len({p}[0])", f"not {p}[0]", f"{p}[0] == ''", f"'' == {p}[0]", f"not len({p}[0])")
